@@ -58,6 +58,7 @@ EMPTY_GLYPH = {"unicodes": [], "width": 0, "height": 0, "note": None, "lib": {},
 IMG_MD5 = {hashlib.md5(fg.png_bytes(sd)).hexdigest(): 1000 + sd for sd in range(0, 16)}
 DAT_MD5 = {hashlib.md5(fg.data_bytes(sd)).hexdigest(): 2000 + sd for sd in range(0, 16)}
 UNKNOWN = 9999
+SAVE_TIME = 200000      # model time of the n-th save: SAVE_TIME + n (zip: the harness sets the archive's times to it)
 
 
 def _known_signatures():
@@ -202,7 +203,7 @@ def model_lines(case):
         elif k == "save":
             nsave += 1
             # times written by this save: distinct from every harness time and from every other save
-            lines.append([A("save"), 1000000 + 2 * nsave, 1000001 + 2 * nsave])
+            lines.append([A("save"), SAVE_TIME + nsave, 1000000 + nsave])
         elif k == "xpart":
             lines.append([A("xpart"), A(op[1]), A(op[2]), opt(None if op[3] is None else ids.part(op[1], op[3])), opt(op[4])])
         elif k == "xglyph":
@@ -460,8 +461,16 @@ class Impl(object):
             b = font.data[op[1]]
             return opt(None) if b is None else [Atom("some"), dat_id(b)]
         if k == "save":
+            self.nsave = getattr(self, "nsave", 0) + 1
             font.save()
             self.refresh_files()
+            if self.is_zip:
+                # ufoLib rewrites the archive, every entry dated now (two-second granularity): make the times
+                # reproducible.  The reader the font has just opened keeps the archive it opened.
+                raw = xc.raw_time(SAVE_TIME + self.nsave, True)
+                files = {rel: (data, raw) for rel, (data, _) in self.files.items()}
+                self.io.write(files, self.files)
+                self.files = files
             return self.disk_snapshot()
         if k[0] == "x":
             return self.external(op)
@@ -524,9 +533,8 @@ class Impl(object):
             return None if tk is None else xc.raw_time(tk, z)
 
         def keepable(rel):
-            """can this file be rewritten without changing its mtime?  In a zip archive only when the harness set that
-            time (the times a save leaves are the wall clock's with two-second granularity: not reproducible)"""
-            return rel in files and (not z or files[rel][1][0] == 2001)
+            """can this file be rewritten without changing its mtime?"""
+            return rel in files
         # bookkeeping files (contents.plist, layercontents.plist, layerinfo.plist) get a time of their own
         self.ntouch = getattr(self, "ntouch", 0) + 1
         craw = xc.raw_time(5000 + self.ntouch, z)
